@@ -122,7 +122,9 @@ func VH_C04_C19_BundleWriteFaults() {
 }
 
 // VH_C04_Destinations: Bundle.WriteTo of the same b1/b2 bundle into a destination WITHOUT io.ReaderFrom (vh.Sink) and
-// one WITH it (bytes.Buffer): identical bytes, and each returned count equals the bytes that destination received.
+// one WITH it (bytes.Buffer): identical bytes, and each returned count equals the bytes that destination received;
+// then into a destination that already received a symbolic prefix of 0..3 bytes (plain or a *CountingWriter) and a
+// second time into the same destination: count, bytes and trailing length field are those of this bundle alone.
 func VH_C04_Destinations() {
 	b := &Bundle{Version: "b2", PrimaryURL: c03MustURL("https://a/")}
 	if vh.Choose(2) == 1 {
@@ -136,4 +138,22 @@ func VH_C04_Destinations() {
 	vh.Assert(e1 == nil && e2 == nil, "both destinations are written")
 	vh.Assert(n1 == int64(len(sink.B)) && n2 == int64(buf.Len()), "returned count equals the bytes handed to the destination")
 	vh.Assert(bytes.Equal(sink.B, buf.Bytes()), "same bytes whatever the destination type")
+	// destinations with a HISTORY: a writer that already received a prefix of 0..3 bytes (plain, and wrapped in the
+	// package's own CountingWriter), and a second bundle through the same writer: the count, the trailing length
+	// field and the bytes are those of this bundle alone
+	k := vh.Choose(4)
+	prefix := vh.Bytes("prefix", k)
+	var s2 vh.Sink
+	var dst io.Writer = &s2
+	wrapped := vh.Choose(2) == 1
+	if wrapped {
+		dst = NewCountingWriter(&s2)
+	}
+	pn, perr := dst.Write(prefix)
+	vh.Assume(perr == nil && pn == k)
+	n3, e3 := b.WriteTo(dst)
+	vh.Assert(e3 == nil && n3 == n1, "count is that of this bundle alone, whatever the destination received before")
+	vh.Assert(len(s2.B) == k+len(sink.B) && bytes.Equal(s2.B[k:], sink.B), "bytes (incl. the trailing length field) do not depend on the destination's history")
+	n4, e4 := b.WriteTo(dst)
+	vh.Assert(e4 == nil && n4 == n1 && len(s2.B) == k+2*len(sink.B) && bytes.Equal(s2.B[k+len(sink.B):], sink.B), "a second bundle through the same writer is identical")
 }
